@@ -126,6 +126,19 @@ pub fn check(id: &str, tier: Tier) -> i32 {
     explore(&run, &spec_d, &mem, &all_starts, id);
     passes.push(json!({"cells": mem.len(), "starts": all_starts.len(), "alphabet": spec.alphabet.len(), "depth": 5, "wall_s": t3.elapsed().as_secs_f64()}));
   }
+  if id == "C11" || id == "C03" || id == "C01" {
+    // zero-sized types of every alignment through the typed and the aligned-bytes entry points, with and
+    // without extra bytes, at odd cursors and from recycled segments
+    use Op::*;
+    use Sz::*;
+    let (z2, z8, z16) = (Ty::L(2, 0), Ty::L(8, 0), Ty::L(16, 0));
+    let zst = vec![B(N(3)), B(R), AB(UNIT, N(0)), AB(UNIT, N(5)), AB(z8, N(0)), AB(z8, N(5)), AB(z2, N(1)), ABO(z8, N(3)), ABO(z16, N(0)), T(z8), TO(z16), T(UNIT), D(0), D(1), F(0)];
+    let tz = std::time::Instant::now();
+    let spec_z = Spec { alphabet: zst.clone(), depth: 3, ..spec.clone() };
+    let cells_z = cells(&[(Backend::Vec, false), (Backend::Vec, true)], cap_plain, cap_unify);
+    explore(&run, &spec_z, &cells_z, &all_starts, id);
+    passes.push(json!({"cells": cells_z.len(), "starts": all_starts.len(), "alphabet": zst.len(), "depth": 3, "kind": "zero-sized types", "wall_s": tz.elapsed().as_secs_f64()}));
+  }
   if id == "C20" {
     c20_readonly(&run);
   }
